@@ -410,3 +410,34 @@ PROPS['C08'] = dict(
           'gRPC+separate-Pythia deployments' % n, env={'VERIF_SLICE': str(i)}, no_validate=True)
         for i, n in enumerate(_C08_KINDS)
     ])
+
+
+PROPS['C15'] = dict(
+    level='model_checking',
+    encoded=['converters.core.ModelInputArrayBijector.scaler_from_spec/onehot_embedder_from_spec',
+             'DefaultModelInputConverter.convert/_to_parameter_value/to_parameter_values/_convert_index',
+             'DefaultModelOutputConverter.convert/to_metrics', 'TrialToArrayConverter', 'ContinuousCategoricalFeatureMapper'],
+    bounds='symbolic real (nan, +-inf) decoded value / scaled feature against 7 representative bound pairs, 5 discrete sets, '
+           'INTEGER ranges of width 0..4, 1..5 categories; native round trips over all feasible points x converter options '
+           '(scale, one-hot, oov padding, continuification threshold 0/10/inf, LINEAR/LOG/REVERSE_LOG) and all 6 column '
+           'layouts of a categorical + continuous + discrete space',
+    outside='float32 mode; float rounding inside the symbolic kernels; LOG/REVERSE_LOG outside the listed feasible points; '
+            'jnp_converters padding schedules; embedder.ProblemAndTrialsScaler; safety-metric label shifting',
+    assumptions=['core.np = engine/npshim on symbolic scalars (self-tested against numpy)'],
+    obligations=[
+        O('C15.linear_scaling', 'harness.c15_encoding', 'linear_scaling', 120, 600,
+          'linear scaler: features in [0,1], low->0, high->1, strictly monotone, backward(forward(x)) == x over the reals', env=_FF),
+        O('C15.decode_double', 'harness.c15_encoding', 'decode_double', 120, 600,
+          'decoding ANY real / nan / inf for a DOUBLE parameter yields None or a value inside the bounds (clipping on)'),
+        O('C15.decode_continuified', 'harness.c15_encoding', 'decode_continuified', 120, 600,
+          'continuified INTEGER/DISCRETE: any real snaps to the nearest member of the domain; nan/inf -> None'),
+        O('C15.decode_index', 'harness.c15_encoding', 'decode_index', 90, 600,
+          'index-coded DISCRETE/INTEGER/CATEGORICAL: index < n decodes to the n-th feasible value, >= n to None (all ints)'),
+        O('C15.roundtrip_single', 'harness.c15_encoding', 'roundtrip_single', 400, 900,
+          'encode -> (scale) -> (one-hot) -> decode returns the original value for every feasible point and option '
+          'combination; exactly one active one-hot entry; scaled features in the unit interval with the documented orientation'),
+        O('C15.roundtrip_space', 'harness.c15_encoding', 'roundtrip_space', 200, 600,
+          'TrialToArrayConverter (+ ContinuousCategoricalFeatureMapper map/unmap) round trip on every column layout'),
+        O('C15.labels_roundtrip', 'harness.c15_encoding', 'labels_roundtrip', 60, 300,
+          'objective labels: to_metrics(convert(m)) == m under either sign convention; missing measurement -> NaN'),
+    ])
